@@ -58,7 +58,12 @@ func UnHex(s string) string {
 // ---------- driver ----------
 
 // DriverPath is the native Lean driver.
-var DriverPath = "/verif/lean/.lake/build/bin/avfsdrv"
+var DriverPath = func() string {
+	if p := os.Getenv("AVFSDRV"); p != "" {
+		return p
+	}
+	return "/verif/lean/.lake/build/bin/avfsdrv"
+}()
 
 // RunDriver feeds lines to the Lean model driver and returns one output line per input line.
 func RunDriver(lines []string) ([]string, error) {
